@@ -3,7 +3,7 @@
    real linker computed; each checker recomputes with the model (or evaluates
    the ECMA-262 specification side) and returns the indices of the cases that
    disagree. *)
-From V Require Import Common.Base C02.Graph C02.Order C02.SpecESM C02.Wrap C02.Resolve C02.DataUrl C02.SpecDataUrl.
+From V Require Import Common.Base C02.Graph C02.Order C02.SpecESM C02.Wrap C02.Resolve C02.DataUrl C02.SpecDataUrl C02.Emit.
 
 Fixpoint mism_from {A} (f : A -> bool) (l : list A) (i : nat) : list nat :=
   match l with
@@ -232,3 +232,34 @@ Definition durl_spec_ok (c : bytes * bytes * bytes * bool) : bool :=
              end
   else true.
 Definition check_durl_spec := mismatches durl_spec_ok.
+
+(* ---- entry-point export statements of the real bundle (text of linker.Link's output) ---- *)
+Inductive ostmt := OX (names : list Z) | OA | OR (second : bool) | ORet | OC (names : list Z).
+Definition emit_case := (Z * bool * list Z * Z * list ostmt)%type.   (* format 0 esm 1 cjs 2 iife(+global), export keyword, aliases, #run-time stars, observed *)
+
+Definition ostmt_of (s : xstmt) : ostmt :=
+  match s with
+  | XExport ns => OX ns
+  | XAssignModuleExports => OA
+  | XReExport _ b => OR b
+  | XReturnToCJS => ORet
+  | XExportClause ns => OC ns
+  end.
+Definition ostmt_eqb (a b : ostmt) : bool :=
+  match a, b with
+  | OX x, OX y | OC x, OC y => zlist_eqb x y
+  | OA, OA | ORet, ORet => true
+  | OR x, OR y => Bool.eqb x y
+  | _, _ => false
+  end.
+Definition is_clause (s : ostmt) : bool := match s with OC _ => true | _ => false end.
+
+(* esm format: whether the internal exports object exists depends on tree shaking, only the
+   export clause is compared; cjs and iife: the whole statement sequence *)
+Definition emit_ok (c : emit_case) : bool :=
+  let '(fz, kw, aliases, ndyn, obs) := c in
+  let f := if fz =? 1 then FCjs else if fz =? 2 then FIife true else FEsm in
+  let model := map ostmt_of (entry_stmts f kw aliases (seq 0 (Z.to_nat ndyn))) in
+  if fz =? 0 then list_eqb ostmt_eqb (filter is_clause model) obs
+  else list_eqb ostmt_eqb model obs.
+Definition check_emit := mismatches emit_ok.
